@@ -321,7 +321,9 @@ fn eval(name: &str, a: &[Value]) -> Value {
             let esc = escaper(&a[1]);
             let cram = a[2].as_str() == Some("cram");
             let output = scrut::output::Output { stdout: stdout.clone().into(), stderr: vec![].into(), exit_code: scrut::output::ExitStatus::Code(0) };
-            let config = if cram { scrut::config::TestCaseConfig::default_cram() } else { scrut::config::TestCaseConfig::default_markdown() };
+            // optional 6th argument: true = `--convert markdown` of a Cram test (Cram defaults on the test case, Markdown generator and parser)
+            let convert = a.get(5).and_then(|v| v.as_bool()).unwrap_or(false);
+            let config = if cram || convert { scrut::config::TestCaseConfig::default_cram() } else { scrut::config::TestCaseConfig::default_markdown() };
             // optional 4th argument: the expectation lines the test already has (the `update` of a failing test)
             let maker0 = scrut::expectation::ExpectationMaker::new(scrut::rules::registry::RuleRegistry::default());
             let mut existing = vec![];
@@ -342,7 +344,7 @@ fn eval(name: &str, a: &[Value]) -> Value {
                 return json!({"passes": true, "document": "(the existing test passes: nothing is rewritten)"});
             }
             let outcome = scrut::outcome::Outcome { location: None, output: output.clone(), testcase,
-                format: if cram { scrut::parsers::parser::ParserType::Cram } else { scrut::parsers::parser::ParserType::Markdown },
+                format: if cram || convert { scrut::parsers::parser::ParserType::Cram } else { scrut::parsers::parser::ParserType::Markdown },
                 escaping: esc, result };
             let generated = if cram {
                 scrut::generators::cram::CramTestCaseGenerator::default().generate_testcases(&[&outcome])
@@ -362,6 +364,9 @@ fn eval(name: &str, a: &[Value]) -> Value {
             }
             if tests[0].shell_expression != expression {
                 return json!({"passes": false, "why": format!("shell expression {:?}", tests[0].shell_expression), "document": text});
+            }
+            if convert && (tests[0].config.output_stream != Some(scrut::config::OutputStreamControl::Combined) || tests[0].config.keep_crlf != Some(true)) {
+                return json!({"passes": false, "why": "the converted test lost the Cram stream / line-ending configuration", "document": text});
             }
             match tests[0].validate(&output) {
                 Ok(()) => json!({"passes": true, "document": text}),
@@ -520,12 +525,14 @@ fn eval(name: &str, a: &[Value]) -> Value {
                     'F' => Err(scrut::testcase::TestCaseError::MalformedOutput(scrut::diff::Diff::new(vec![
                         scrut::diff::DiffLine::UnmatchedExpectation { index: 0, expectation: exp.clone() },
                         scrut::diff::DiffLine::UnexpectedLines { lines: vec![(0, line.clone())] }]))),
-                    'C' => Err(scrut::testcase::TestCaseError::InvalidExitCode { actual: 4, expected: 0 }),
+                    'C' | 'Z' => Err(scrut::testcase::TestCaseError::InvalidExitCode { actual: 4, expected: 0 }),
                     'T' => Err(scrut::testcase::TestCaseError::Timeout),
                     _ => Err(scrut::testcase::TestCaseError::Skipped),
                 };
-                let output = scrut::output::Output { stdout: (if k == 'F' || k == 'C' { line.clone() } else { vec![] }).into(), stderr: vec![].into(),
-                    exit_code: scrut::output::ExitStatus::Code(if k == 'C' { 4 } else { 0 }) };
+                let output = scrut::output::Output { stdout: (if k == 'F' || k == 'C' || k == 'Z' { line.clone() } else { vec![] }).into(), stderr: vec![].into(),
+                    exit_code: scrut::output::ExitStatus::Code(if k == 'C' || k == 'Z' { 4 } else { 0 }) };
+                let mut testcase = testcase;
+                if k == 'Z' { testcase.exit_code = Some(0); }
                 outcomes.push(scrut::outcome::Outcome { location: if located { Some(format!("doc{}.md", if same { 0 } else { i % 2 })) } else { None }, output, testcase,
                     format: scrut::parsers::parser::ParserType::Markdown, escaping: scrut::escaping::Escaper::Unicode, result });
             }
